@@ -178,8 +178,19 @@ impl Backend for LmdbStorage {
         LmdbStorage::open(dir.join("lmdb")).await.map_err(|e| e.to_string())
     }
     fn close(self, _dir: &Path) -> bool {
-        let ev = self.handle().env().clone().prepare_for_closing();
+        // the close is the executor's doing (datacake-lmdb never closes its environment): keep a
+        // clone until the backend's task thread - which owns a thread-local LMDB reader slot - has
+        // exited, and only then drop the last one (see hx-store.rs)
+        let env = self.handle().env().clone();
+        let ev = env.clone().prepare_for_closing();
+        let threads = || std::fs::read_dir("/proc/self/task").map(|d| d.count()).unwrap_or(0);
+        let before = threads();
         drop(self);
+        let t0 = Instant::now();
+        while threads() >= before && t0.elapsed() < Duration::from_secs(5) {
+            std::thread::sleep(Duration::from_micros(100));
+        }
+        drop(env);
         ev.wait_timeout(Duration::from_secs(5))
     }
 }
